@@ -299,6 +299,22 @@ func causesFor(f option.Format) []cause {
 					return n, o
 				}},
 			causeDupLabel,
+			{"json_text_in_string",
+				func(t *table, o opts, r *rtResult) bool {
+					return hasAny(t, false, func(s string) bool {
+						u := strings.TrimLeft(s, " \t\r\n")
+						return strings.HasPrefix(u, "[") || strings.HasPrefix(u, "{")
+					})
+				},
+				func(t *table, o opts) (*table, opts) {
+					return mapTexts(t, false, func(s string) string {
+						u := strings.TrimLeft(s, " \t\r\n")
+						if strings.HasPrefix(u, "[") || strings.HasPrefix(u, "{") {
+							return "x" + s
+						}
+						return s
+					}), o
+				}},
 			{"trailing_backslash",
 				func(t *table, o opts, r *rtResult) bool {
 					return hasAny(t, true, func(s string) bool { return strings.HasSuffix(s, "\\") })
@@ -519,6 +535,8 @@ func writerPositionsPlain(t *table, o opts) []int {
 	return ps
 }
 
+var jsonLooking = []string{"[1, 2]", "[1,2]", "{\"a\": 1}", "{\"a\":1.50}", "[\"[1]\"]", "[", "{}", "[]", " [ ] ", "[1e2]", "{\"k\":[true,null]}", "[x]", "{a}", "[\"a\" ,\"b\"]", "{\"k\" : \"v\"}"}
+
 func rtCase(g *hc.Gen, o *hc.Out, dir string) {
 	f := rtFormats[g.Intn(len(rtFormats))]
 	op := genOpts(g, f)
@@ -547,6 +565,12 @@ func rtCase(g *hc.Gen, o *hc.Out, dir string) {
 	}
 	if f == option.FIXED && g.Intn(3) == 0 {
 		op.positions = genPositions(g, t, op)
+	}
+	if (f == option.JSON || f == option.JSONL) && g.Intn(3) == 0 {
+		// texts that are themselves JSON (F73: the encoder embeds them) or look like it
+		for k := 1 + g.Intn(2); k > 0 && len(t.rows) > 0; k-- {
+			t.rows[g.Intn(len(t.rows))][g.Intn(len(t.header))] = mkCell(value.NewString(jsonLooking[g.Intn(len(jsonLooking))]))
+		}
 	}
 	rtRun(o, dir, t, op, g.Intn(10) < 7, "")
 }
